@@ -75,7 +75,7 @@ KEY_EQ = "nat-fwd-queued-alone-equal-timestamps"
 def classify(line):
     # the known class: a forward entry visited while its reverse entry carried the same last_seen, and queued with
     # the dummy reverse key although that reverse entry existed
-    tags = line.get("tags", [])
+    tags = line.get("tags") or []
     if "nat-pair-equal-timestamps" in tags and "fwd-queued-alone-with-reverse-present" in tags:
         return KEY_EQ
     return None
